@@ -120,6 +120,7 @@ func init() {
 			"len(properties) == 1 (R-MAPORDER/R-EXPLICIT in C04/C12); R-SYMM - one-of dispatch: the member's verdict decides on every operation, data is stripped of a " +
 			"non-inlined discriminator by copy, results get it back. R-NOCOERCE - as in C02 (Validate / Serialize do not coerce discriminators or fields). R-UNSETNIL - the presence function of struct-mapped objects can report a nil pointer, slice and map field as unset (what Unserialize leaves for an absent property). R-DISABLED - every PropertySchema method that hands data to its type (Unserialize, Validate, Serialize, data-mode ValidateCompatibility) returns a possibly-nil error only where Disabled is known false (branch on the flag, or a helper whose nil result implies it). NOT decided: the full truth table over interacting rule graphs and presence subsets.",
 		Rules: []func(*Ctx){
+			func(c *Ctx) { c.ruleRebuilt("R-REBUILT"); c.R.Floor("R-REBUILT", 5) },
 			func(c *Ctx) { c.ruleNoCoerce("R-NOCOERCE"); c.R.Floor("R-NOCOERCE", 3) },
 			func(c *Ctx) { c.ruleObjectRules("R-OBJ") },
 			func(c *Ctx) { c.ruleOneOfSymm("R-SYMM") },
@@ -274,6 +275,7 @@ func init() {
 			"statement, CBOR/YAML passes, behavioural equality of original and rebuilt schema, string constraints (patterns / lengths) that the tables put on identifiers.",
 		Assumptions: []string{"the tables are built from literals and constructor calls (anything else fails the check as undecided)"},
 		Rules: []func(*Ctx){
+			func(c *Ctx) { c.ruleRebuilt("R-REBUILT"); c.R.Floor("R-REBUILT", 5) },
 			func(c *Ctx) { c.ruleTable("R-TABLE") },
 			func(c *Ctx) { c.ruleMetaBound("R-METABOUND"); c.R.Floor("R-METABOUND", 10) },
 			func(c *Ctx) { c.ruleKeyKinds("R-KEYKINDS"); c.R.Floor("R-KEYKINDS", 2) },
@@ -289,6 +291,7 @@ func init() {
 			"reflection inside the struct mapper (covered by its recover scope).",
 		Assumptions: []string{"table entries produced by the struct mapper are non-nil (A2 holds for wire-built schemas too)"},
 		Rules: []func(*Ctx){
+			func(c *Ctx) { c.ruleRebuilt("R-REBUILT"); c.R.Floor("R-REBUILT", 5) },
 			func(c *Ctx) {
 				roots := append(c.entryLoad(), c.entryData()...)
 				c.ruleExplicit("R-EXPLICIT", c.M, roots, c.dataTaint(c.entryData()), false)
